@@ -20,12 +20,14 @@ inductive Shape
   deriving Repr, Inhabited
 
 /-- One entry of the `Vec<&dyn RawLock>` filled by `get_ptrs`: the address used for sorting
-and duplicate detection, the trait object, and (for specifications) the leaf locks it covers. -/
+and duplicate detection, the trait object, and (for specifications) the holds it stands for. -/
 structure Ptr where
   addr : Nat
   lock : RawLockM
-  leaves : List LockId
+  fp : Mode → List (LockId × Mode)   -- the holds an acquisition in mode `m` obtains
   deriving Inhabited
+
+def Ptr.leaves (p : Ptr) : List LockId := (p.fp .excl).map (·.1)
 
 def sortPtrs (ps : List Ptr) : List Ptr := ps.mergeSort (fun a b => a.addr ≤ b.addr)
 
@@ -38,8 +40,8 @@ structure World where
 mutual
 /-- `Lockable::get_ptrs`. -/
 def getPtrs (W : World) : Shape → List Ptr
-  | .mutex x => [{ addr := W.addr x, lock := mutexLeaf x, leaves := [x] }]
-  | .rwlock x => [{ addr := W.addr x, lock := rwLeaf x, leaves := [x] }]
+  | .mutex x => [{ addr := W.addr x, lock := mutexLeaf x, fp := fun _ => [(x, .excl)] }]
+  | .rwlock x => [{ addr := W.addr x, lock := rwLeaf x, fp := fun m => [(x, m)] }]
   | .seq ss => getPtrsL W ss
   | .poisonable _ s => getPtrs W s
   | .boxed s => sortPtrs (getPtrs W s)
@@ -47,7 +49,7 @@ def getPtrs (W : World) : Shape → List Ptr
   | .retry s => getPtrs W s
   | .owned a s =>
     let ps := getPtrs W s
-    [{ addr := a, lock := orderedLock (ps.map (·.lock)), leaves := ps.flatMap (·.leaves) }]
+    [{ addr := a, lock := orderedLock (ps.map (·.lock)), fp := fun m => ps.flatMap (·.fp m) }]
 def getPtrsL (W : World) : List Shape → List Ptr
   | [] => []
   | s :: ss => getPtrs W s ++ getPtrsL W ss
